@@ -31,7 +31,7 @@ mod vk_array {
         }
     }
 
-    // @harness name=array_ledger_next props=C08,C01,C02 kind=bounded bound="len == 3; counter value c over the full usize domain"
+    // @harness name=array_ledger_next inputs=len,c,fin scenario="kind=array c={c} ops=next,seq" props=C08,C01,C02 kind=bounded bound="len == 3; counter value c over the full usize domain"
     #[kani::proof]
     #[kani::unwind(5)]
     fn array_ledger_next() {
@@ -60,7 +60,7 @@ mod vk_array {
         chk_ledger(len, owned_from, &delivered);
     }
 
-    // @harness name=array_ledger_chunk props=C08,C01,C02,C03 kind=bounded bound="len == 3; c, n over the full usize domain (c + n <= usize::MAX); any number of chunk items consumed"
+    // @harness name=array_ledger_chunk inputs=len,c,n,take,fin scenario="kind=array c={c} ops=chunk:{n}:{take},seq" props=C08,C01,C02,C03 kind=bounded bound="len == 3; c, n over the full usize domain (c + n <= usize::MAX); any number of chunk items consumed"
     #[kani::proof]
     #[kani::unwind(5)]
     fn array_ledger_chunk() {
@@ -102,7 +102,7 @@ mod vk_array {
         chk_ledger(len, owned_from, &delivered);
     }
 
-    // @harness name=array_ledger_buffered props=C08,C01,C02,C03 kind=bounded bound="len == 3; c, chunk size over the full usize domain; any number of chunk items consumed"
+    // @harness name=array_ledger_buffered inputs=len,c,n,take,fin scenario="kind=array c={c} ops=buffered:{n}:{take},seq" props=C08,C01,C02,C03 kind=bounded bound="len == 3; c, chunk size over the full usize domain; any number of chunk items consumed"
     #[kani::proof]
     #[kani::unwind(5)]
     fn array_ledger_buffered() {
@@ -143,7 +143,7 @@ mod vk_array {
         chk_ledger(len, owned_from, &delivered);
     }
 
-    // @harness name=array_ledger_skip props=C08,C15,C06,C10 kind=bounded bound="len == 3; c over the full usize domain"
+    // @harness name=array_ledger_skip inputs=len,c,fin scenario="kind=array c={c} ops=skip,next,seq" props=C08,C15,C06,C10 kind=bounded bound="len == 3; c over the full usize domain"
     #[kani::proof]
     #[kani::unwind(5)]
     fn array_ledger_skip() {
@@ -178,7 +178,7 @@ mod vk_array {
         chk_ledger(len, owned_from, &delivered);
     }
 
-    // @harness name=array_into_seq props=C10,C08 kind=bounded bound="len == 3; c over the full usize domain"
+    // @harness name=array_into_seq inputs=len,c scenario="kind=array c={c} ops=seq" props=C10,C08 kind=bounded bound="len == 3; c over the full usize domain"
     #[kani::proof]
     #[kani::unwind(5)]
     fn array_into_seq() {
